@@ -158,7 +158,7 @@ Definition toy_sem : Sem :=
 Lemma toy_flag_laws : FlagLaws toy_sem.
 Proof. split; reflexivity. Qed.
 
-Lemma toy_live_laws : LiveLaws toy_sem (fun _ => True) (fun _ _ => True).
+Lemma toy_live_laws : LiveLaws toy_sem (fun _ => True) (fun _ _ => True) (fun _ _ => True) (fun _ => True) (fun _ _ => True).
 Proof.
   split; simpl; auto.
   - intros c v u _ [].
